@@ -233,7 +233,8 @@ pub(crate) fn spec_function(e: &ExpressionTree, ev: &dyn Fn(&ExpressionTree) -> 
             if v.value_type().as_ref() == Some(t) { return (val(v), "cast-identity"); }
             match (&v, t) {
                 (Value::Null, ValueType::String) => (Unspecified, ""),
-                (Value::Null, _) => (Error, "cast-null"),
+                // a cast of NULL: neither the sentence nor the README says (the code reports an error, SQL says NULL): model-vs-code only
+                (Value::Null, _) => (Unspecified, ""),
                 (Value::Int(n), ValueType::String) => (val(Value::String(n.to_string())), "cast-int-text"),
                 (Value::Bool(b), ValueType::String) => (val(Value::String(if *b { "true" } else { "false" }.to_owned())), "cast-bool-text"),
                 (_, ValueType::String) => (Unspecified, ""),
@@ -256,7 +257,9 @@ pub(crate) fn spec_function(e: &ExpressionTree, ev: &dyn Fn(&ExpressionTree) -> 
                 (Value::String(_), _) => (Unspecified, ""),
                 (Value::Interval(d), ValueType::Int) => (val(Value::Int(d.num_seconds())), "cast-interval-seconds"),
                 (Value::Interval(_), ValueType::Float) => (Unspecified, ""),
-                _ => (Error, "cast-type-mismatch"),
+                // cast pairs no document lists (BOOLEAN::INT, arrays, TIMESTAMP::INT …): the code has no conversion and reports an
+                // error; a conversion added later would not contradict the sentence, so only model-vs-code is compared here
+                _ => (Unspecified, ""),
             }
         }
         _ => (Unspecified, ""),
